@@ -93,7 +93,15 @@ Definition rcwr (pool : list val) (r : nat) (k : list val -> gp) : gp :=
   | [] => GAbort        (* randrange(0): ValueError in CPython; unreachable where the callers guard `if not values` *)
   | _ => draw_idx r (Z.of_nat (List.length pool)) [] (fun idx => k (select pool idx))
   end.
-Definition all_hashable (vs : list val) : bool := forallb hashable vs.
+(* hash(x) works (needed to put x INTO a set): unlike `x in s` (Val.hashable), a set is not accepted *)
+Fixpoint py_hashable (x : val) : bool :=
+  match x with
+  | VColl KTuple items => forallb py_hashable items
+  | VColl KRange _ | VColl KStr _ => true
+  | VColl _ _ => false
+  | _ => true
+  end.
+Definition all_hashable (vs : list val) : bool := forallb py_hashable vs.
 
 (* python equality between generated values (numbers compare across bool/int/float) *)
 Fixpoint pyeq (a b : val) {struct a} : bool :=
